@@ -73,7 +73,8 @@ Definition shuffle {A} (d : A) (fuel : nat) (l : list A) (s : stream) : option (
   shuffle_loop d fuel (length l - 1) l s.
 
 (* ---- float64 helpers for removeRandomCiphers ---- *)
-Definition two1024 : Q := inject_Z (2 ^ 1024).
+(* 2^1024 by shifting: Z.pow would redo 1024 big multiplications at every evaluation *)
+Definition two1024 : Q := inject_Z (Z.shiftl 1 1024).
 (* overflow of a rounded finite result to +-Inf *)
 Definition ovf (q : Q) : fw :=
   if Qlt_le_dec q two1024 then (if Qlt_le_dec (- two1024) q then WFin q else WInf true) else WInf false.
